@@ -1,6 +1,6 @@
 (* C14 — the overhang filter prints layer by layer in the requested direction.
    Statements only; every proof is `exact <lemma>`; Print Assumptions under each.
-   Model: Model/Overhang.v (OverhangFilter._prepare / set_parameters / _response); lemmas: Proofs/OverhangP.v.
+   Model: Model/Overhang.v (OverhangFilter._prepare / set_parameters / _response); lemmas: Proofs/OverhangCoreP.v.
 
    Vocabulary (all from Model/Overhang.v):
      sweep smin smax dflt g dl dx n x   the while loop of _response for dir_layer = dl, dx_layer = dx, nsampling = n,
@@ -13,7 +13,7 @@
      nlay / n1 / n2                     number of layers and the two in-layer sizes for print axis dl            *)
 From Coq Require Import String Ascii.
 From Coq Require Import ZArith QArith List Reals Permutation Lia.
-From Pymoto Require Import Model.Grid Model.Overhang Model.OverhangHist Proofs.GridP Proofs.OverhangP Proofs.OverhangHistP.
+From Pymoto Require Import Model.Grid Model.Overhang Model.OverhangHist Proofs.GridP Proofs.OverhangCoreP Proofs.OverhangHistP.
 Import ListNotations.
 Open Scope Z_scope.
 
@@ -115,7 +115,7 @@ Print Assumptions C14_offsets_symmetric.
 
 (* ------------------------------------------------------------------------------------------------------------ *)
 (* 4. Direction parsing.  Strings: for EVERY string (any length, any bytes) the parser returns the documented
-      reading `documented` (Proofs/OverhangP.v): exactly one of the axis letters x/y/z occurs (either case) -> that
+      reading `documented` (Proofs/OverhangCoreP.v): exactly one of the axis letters x/y/z occurs (either case) -> that
       axis, negative iff a '-' occurs; otherwise ValueError.                                                       *)
 Theorem C14_parse_string_all : forall s, parse_string s = documented s.
 Proof. exact parse_string_documented. Qed.
@@ -265,17 +265,9 @@ Theorem C14_unsupported_input_removed : forall g dl dx nsamp (x : list R) eps,
 Proof. exact unsupported_input_removed. Qed.
 Print Assumptions C14_unsupported_input_removed.
 
-(* 9. The default parameters p = 40, xi_0 = 1/2, eps = 1e-4 with float64 (tiny = 2^-1022) and nsampling 3/5/9 meet
-      every premise used above (this is also the non-vacuity witness for them), and the bound of
-      C14_unsupported_input_removed is then below 0.01.  Proved with the Interval tactic.                          *)
-Theorem C14_default_parameters : forall n, n = 3 \/ n = 5 \/ n = 9 ->
-  let q := q_of 40 n (1 / 2) in
-  let s := shift_of 40 dbl_tiny in
-  let b := backshift_of n 40 q s in
-  0 < q <= 40 /\ 0 < s /\ 0 <= b < s /\ b <= Rpower (1 + s) (40 / q) - 1 /\
-  Rpower n (1 / q) * Rpower (sqrt (1 / 10000) / 2 + s) (40 / q) - b + sqrt (1 / 10000) / 2 <= 1 / 100.
-Proof. exact default_params. Qed.
-Print Assumptions C14_default_parameters.
+(* 9. The default parameters p = 40, xi_0 = 1/2, eps = 1e-4 with float64 meet every premise used above:
+      C14_default_parameters in Props/C14b.v (Interval tactic; kept in its own file so that this one is independent of
+      the Interval library).                                                                                       *)
 
 (* q = p - k for xi_0 = n^(-1/k): the rational instances evaluated by the correspondence check *)
 Theorem C14_q_of_root : forall p n k, 0 < n -> n <> 1 -> k <> 0 -> q_of p n (Rpower n (- (1 / k))) = p - k.
